@@ -62,6 +62,42 @@ static vf::Verdicts eval(const Inst &in, vf::Ctx &ctx) {
   vf::Verdicts out;
   RowSpec row = rowOf(in.rowVariant);
   Row r(row.minX, row.maxX, row.minY, row.maxY, (CellOrientation)row.orient);
+  if (in.mode == 2) {
+    // history: computeRows, then one setter that changes the fixed obstruction from rectangle A to B (or its flags), then computeRows again
+    const R4 &A = in.obs[0], &B = in.obs[1];
+    int op = in.flags;
+    Circuit c(2);
+    c.setCellWidth({A.x1 - A.x0, 1}); c.setCellHeight({A.y1 - A.y0, row.maxY - row.minY});
+    c.setCellX({A.x0, row.minX}); c.setCellY({A.y0, row.minY});
+    c.setCellIsFixed({true, false}); c.setCellIsObstruction({true, true});
+    c.setRows({r});
+    std::vector<Row> got;
+    CallResult cr = guarded([&] { got = c.computeRows(); });
+    if (cr.threw) { out.push_back({"computeRows-throws", cr.what + " | " + enc(in)}); return out; }
+    std::string why = compare(row, {Rect{A.x0, A.x1, A.y0, A.y1}}, got);
+    if (!why.empty()) out.push_back({"computeRows:" + why, enc(in)});
+    std::vector<Rect> eff;
+    static const char *opn[8] = {"setCellX+setCellY", "setSolution", "setCellWidth+setCellHeight", "setCellIsFixed(false)", "setCellIsObstruction(false)",
+                                 "setCellOrientation(W)", "setSolution(turned)", "setCellIsFixed(false,true)"};
+    switch (op) {
+      case 0: c.setCellX({B.x0, row.minX}); c.setCellY({B.y0, row.minY}); eff.push_back({B.x0, B.x0 + (A.x1 - A.x0), B.y0, B.y0 + (A.y1 - A.y0)}); break;
+      case 1: c.setSolution({CellPlacement(B.x0, B.y0, CellOrientation::N), CellPlacement(row.minX, row.minY, CellOrientation::N)});
+              eff.push_back({B.x0, B.x0 + (A.x1 - A.x0), B.y0, B.y0 + (A.y1 - A.y0)}); break;
+      case 2: c.setCellWidth({B.x1 - B.x0, 1}); c.setCellHeight({B.y1 - B.y0, row.maxY - row.minY}); eff.push_back({A.x0, A.x0 + (B.x1 - B.x0), A.y0, A.y0 + (B.y1 - B.y0)}); break;
+      case 3: c.setCellIsFixed({false, false}); break;
+      case 4: c.setCellIsObstruction({false, true}); break;
+      case 5: c.setCellOrientation({CellOrientation::W, CellOrientation::N}); eff.push_back({A.x0, A.x0 + (A.y1 - A.y0), A.y0, A.y0 + (A.x1 - A.x0)}); break;
+      case 6: c.setSolution({CellPlacement(B.x0, B.y0, CellOrientation::FE), CellPlacement(row.minX, row.minY, CellOrientation::N)});
+              eff.push_back({B.x0, B.x0 + (A.y1 - A.y0), B.y0, B.y0 + (A.x1 - A.x0)}); break;
+      default: c.setCellIsFixed({false, true}); eff.push_back({row.minX, row.minX + 1, row.minY, row.maxY}); break;
+    }
+    cr = guarded([&] { got = c.computeRows(); });
+    if (cr.threw) { out.push_back({"computeRows-throws", cr.what + " | " + enc(in)}); return out; }
+    why = compare(row, eff, got);
+    if (!why.empty()) out.push_back({"computeRows-after-" + std::string(opn[op]) + ":" + why, enc(in)});
+    ctx.nontrivial(vf::fnv(enc(in)));
+    return out;
+  }
   if (in.mode == 0) {
     std::vector<Rectangle> obs;
     std::vector<Rect> eff;
@@ -81,13 +117,18 @@ static vf::Verdicts eval(const Inst &in, vf::Ctx &ctx) {
     std::vector<int> w(nCells + 1, 1), h(nCells + 1, row.maxY - row.minY), x(nCells + 1, row.minX), y(nCells + 1, row.minY);
     std::vector<bool> fx(nCells + 1, false), ob(nCells + 1, true);
     std::vector<Rect> eff;
+    int turn = (in.flags >> 8) & 3;  // 0: N, 1: W, 2: FE, 3: S  (orientation of the cells; the obstacle rectangle is the PLACED footprint)
+    std::vector<CellOrientation> orients(nCells + 1, CellOrientation::N);
     for (int i = 0; i < nCells; ++i) {
       w[i] = in.obs[i].x1 - in.obs[i].x0; h[i] = in.obs[i].y1 - in.obs[i].y0; x[i] = in.obs[i].x0; y[i] = in.obs[i].y0;
+      if (turn == 1 || turn == 2) { std::swap(w[i], h[i]); orients[i] = turn == 1 ? CellOrientation::W : CellOrientation::FE; }
+      if (turn == 3) orients[i] = CellOrientation::S;
       fx[i] = (in.flags >> (2 * i)) & 1;
       ob[i] = (in.flags >> (2 * i + 1)) & 1;
       if (fx[i] && ob[i]) eff.push_back({in.obs[i].x0, in.obs[i].x1, in.obs[i].y0, in.obs[i].y1});
     }
     c.setCellWidth(w); c.setCellHeight(h); c.setCellX(x); c.setCellY(y); c.setCellIsFixed(fx); c.setCellIsObstruction(ob);
+    c.setCellOrientation(orients);
     // a second row far away must be reported untouched
     Row far(100, 104, 50, 50 + (row.maxY - row.minY), CellOrientation::N);
     c.setRows({r, far});
@@ -120,7 +161,7 @@ int main(int argc, char **argv) {
   c.rule =
       "row [0,4)x[0,2) N plus three variants (offset start / FS, offset y / S, height 1 / FN) x every set of <= 2 (thorough: 3 on a reduced grid) obstacle "
       "rectangles with corners on the grid {-1..5}x{-1..3} (min <= max, degenerate ones included) through Row::freespace; through Circuit::computeRows with the "
-      "obstacles as cells carrying every fixed/obstruction flag combination, optionally the last one as an extra obstacle, next to an unrelated row; oracle = "
+      "obstacles as cells carrying every fixed/obstruction flag combination and orientations N/S/W/FE (the rectangle being the placed footprint), optionally the last one as an extra obstacle, next to an unrelated row; histories on one Circuit object: computeRows, then one of 8 setters (setCellX/Y, setSolution, setCellWidth/Height, setCellIsFixed, setCellIsObstruction, setCellOrientation) changing the obstruction from rectangle A to B, then computeRows again; oracle = "
       "column oracle (a column is free iff no non-degenerate effective obstacle meets the open column x row height): segments disjoint, full height, inside "
       "the row, same orientation, union = free columns; non-trivial = the free space differs from the whole row";
   c.bounds = th ? "triples on grid {-1,0,2,4,5}x{-1,0,1,2,3}" : "pairs on the full grid";
@@ -146,10 +187,18 @@ int main(int argc, char **argv) {
           for (size_t j = i; j < red.size(); ++j)
             for (size_t k = j; k < red.size(); ++k) f(Inst{rv, {red[i], red[j], red[k]}, 0, 0});
     }
+    // history on one Circuit object: query, one setter, query again
+    for (int rv = 0; rv < 2; ++rv)
+      for (size_t i = 0; i < red.size(); ++i)
+        for (size_t j = 0; j < red.size(); ++j)
+          for (int op = 0; op < 8; ++op) {
+            if (op >= 3 && op != 6 && j != 0) continue;  // these operations do not use B
+            f(Inst{rv, {red[i], red[j]}, 2, op});
+          }
     // computeRows: flag combinations
     for (int rv = 0; rv < 2; ++rv) {
       for (auto &a : full)
-        for (int fl = 0; fl < 4; ++fl) { f(Inst{rv, {a}, 1, fl}); }
+        for (int fl = 0; fl < 4; ++fl) { f(Inst{rv, {a}, 1, fl}); for (int t = 1; t <= 3; ++t) f(Inst{rv, {a}, 1, fl | (t << 8)}); }
       for (auto &a : full) f(Inst{rv, {a}, 1, 1 << 2});  // as extra obstacle only
       for (size_t i = 0; i < red.size(); ++i)
         for (size_t j = 0; j < red.size(); ++j)
